@@ -65,7 +65,9 @@ def armTypeOf : Val → Option (Option Kind)
 /-- float → integer conversion, Go `T(x)`: truncation toward zero; only meaningful in range
     (out of range is implementation-defined in Go and is excluded from the correspondence). -/
 def floatToInt (k : Kind) (x : Float) : Int :=
-  wrap k (if x < 0 then -((-x).floor.toUInt64.toNat : Int) else (x.floor.toUInt64.toNat : Int))
+  if x.isNaN || x ≥ 9223372036854775808.0 || x < -9223372036854775808.0 then
+    wrap k (-9223372036854775808)     -- amd64 CVTTSD2SQ "integer indefinite" (trusted base: platform behaviour)
+  else wrap k (if x < 0 then -((-x).floor.toUInt64.toNat : Int) else (x.floor.toUInt64.toNat : Int))
 
 /-- Go conversion `T(v)` for numeric `v`. -/
 def conv (t : Kind) (v : Val) : Val :=
